@@ -14,8 +14,35 @@ VECS = [(0.0, 0.0, 0.0), (1.0, 0.0, 0.0), (0.0, -2.0, 0.0), (0.0, 0.0, math.pi),
 _ctx = {}
 
 
+def _source_literals():
+    """numeric literals named in the text of the leaf gate classes of the CURRENT source, and the parameter points at which the translator's
+    validation saw the live class deviate from the reference form: a change that special-cases a parameter value names that value in its
+    text, so these become boundary angles / rotation vectors of the generators (no effect on the unchanged tree beyond a few more points)"""
+    out = []
+    try:
+        from translators import gates as TG
+        for cls in TG.LEAVES:
+            for w in TG.harvest_constants(cls):
+                if abs(w) <= 1e13 and w not in out:
+                    out.append(float(w))
+        for h in TG.HINTS:
+            for v in h.get("env", {}).values():
+                for w in (v if isinstance(v, (tuple, list)) else [v]):
+                    if isinstance(w, (int, float)) and float(w) not in out:
+                        out.insert(0, float(w))
+    except Exception:
+        pass
+    return out[:48]
+
+
 def ctx():
     if not _ctx:
+        for w in _source_literals():
+            if w not in ANGLES:
+                ANGLES.append(w)
+            for v in ((w, 0.0, 0.0), (0.0, 0.6 * w, 0.8 * w)):
+                if v not in VECS:
+                    VECS.append(v)
         qib = import_qib()
         import qib.operator.gates as G
         _ctx.update(qib=qib, G=G)
